@@ -24,6 +24,7 @@ EXPLANATION = (
     "bits; R5 aligned path slices exactly the object's bytes; R6 get_data/set_data use the same aligned/unaligned "
     "predicate and divmod(self.offset, 8); set_data ends in pdo_parent.update(); R7 every non-empty mapping entry of the device (1..64 bits) becomes a variable (read loop, shared with C09.R2); R9 ODVariable.__len__ per data type (default field length; shared with C04.R5); R10 item access designates variables of the current mapping, first match in map order; R8 structural assumptions shared by all properties: no class-level mutable object is mutated in place by instances, no method re-runs the constructor, logging statements cannot raise (typed eager formatting, divisions), no mutable default argument is kept or mutated, no new truth-value test of a None-able number, a look-up memory the pinned tree does not have is keyed by all its inputs (arithmetic keys folded over a grid of addresses) and, on the serving side, emptied somewhere."
     ' R1 also: every mapping entry is a PdoVariable constructed for it; R10 also: PdoBase.__getitem__ looks only into maps bound by the loop over the current maps (no remembered answers).'
+    ' R1 also: the frame size expression is decided by value for 0..64 bits.'
 )
 ASSUMPTIONS = [
     "not decided: values for all layouts (only the index arithmetic of byte windows is evaluated over the finite layout "
